@@ -70,21 +70,67 @@ pub const RUNAWAY: i64 = -4;
 /// no traversal of an array of this crate's test shapes is longer than this
 pub const CAP: usize = 4096;
 
-fn drain_indexes<I: Iterator, F: Fn(I::Item) -> Vec<usize>>(mut it: I, f: F) -> Vec<i64> {
-    let mut log = Vec::new();
+thread_local! {
+    /// how `drain_indexes` consumes the enumeration: (kind, k); kind 0 = next() only
+    pub static ADAPT: std::cell::Cell<(i64, usize)> = const { std::cell::Cell::new((0, 0)) };
+}
+
+fn drain_rest<I: Iterator, F: Fn(I::Item) -> Vec<usize>>(mut it: I, f: &F, log: &mut Vec<i64>) {
     let mut n = 0;
     while let Some(k) = it.next() {
         log.extend(f(k).into_iter().map(|x| x as i64));
         n += 1;
         if n > CAP {
             log.push(RUNAWAY);
-            return log;
+            return;
         }
     }
     log.push(END);
     // two further calls after the end
     log.push(if it.next().is_none() { 1 } else { 0 });
     log.push(if it.next().is_none() { 1 } else { 0 });
+}
+
+/// The enumeration consumed through `next()` (kind 0) or through an iterator adaptor / consumer that an
+/// `Iterator` impl may override (nth, skip, step_by, count, last, size_hint, fold), then drained by `next()`.
+fn drain_indexes<I: Iterator, F: Fn(I::Item) -> Vec<usize>>(mut it: I, f: F) -> Vec<i64> {
+    let mut log = Vec::new();
+    let (kind, k) = ADAPT.with(|a| a.get());
+    match kind {
+        0 => drain_rest(it, &f, &mut log),
+        1 => {
+            match it.nth(k) {
+                Some(x) => log.extend(f(x).into_iter().map(|x| x as i64)),
+                None => log.push(END),
+            }
+            drain_rest(it, &f, &mut log)
+        }
+        2 => drain_rest(it.skip(k), &f, &mut log),
+        3 => drain_rest(it.step_by(k.max(1)), &f, &mut log),
+        4 => log.push(it.take(CAP + 1).count() as i64),
+        5 => match it.take(CAP + 1).last() {
+            Some(x) => log.extend(f(x).into_iter().map(|x| x as i64)),
+            None => log.push(END),
+        },
+        6 => {
+            let (lo, hi) = it.size_hint();
+            log.push(lo.min(1 << 40) as i64);
+            log.push(hi.map(|h| h.min(1 << 40) as i64).unwrap_or(-1));
+            drain_rest(it, &f, &mut log)
+        }
+        7 => {
+            // k calls of next(), then fold over the rest
+            for _ in 0..k {
+                it.next();
+            }
+            let v = it.take(CAP + 1).fold(Vec::new(), |mut acc, x| {
+                acc.extend(f(x).into_iter().map(|x| x as i64));
+                acc
+            });
+            log.extend(v)
+        }
+        _ => log.push(RUNAWAY),
+    }
     log
 }
 
@@ -740,7 +786,19 @@ pub fn run(c: &Case) -> String {
         Some(ct) => ct,
         None => return format!("BAD no array instantiation for family {} dims {:?}", c.fam, c.dims),
     };
-    match interp(&ct, c.dims.len(), &code) {
+    let res = if c.op == "arr_adapt" {
+        // numbers: kind, k (see drain_indexes)
+        if code.len() != 2 {
+            return "BAD arr_adapt takes two numbers".into();
+        }
+        ADAPT.with(|a| a.set((code[0], code[1].max(0) as usize)));
+        let r = guarded(|| (ct.indexes_log)());
+        ADAPT.with(|a| a.set((0, 0)));
+        Ok(r.unwrap_or_else(|| vec![PANIC]))
+    } else {
+        interp(&ct, c.dims.len(), &code)
+    };
+    match res {
         Ok(log) => {
             let mut s = String::from("OK");
             for x in log {
